@@ -1,6 +1,7 @@
 package checks
 
 import (
+	"bytes"
 	"fmt"
 	"strings"
 
@@ -82,8 +83,8 @@ func c15IsEval(cs *core.Case) (bool, string, string) {
 	s := decorate(cs.Strs[0], cs.Ints[1], cs.Ints[2], cs.Ints[3], cs.Ints[4])
 	want := false
 	nn := normalise(s)
-	if nn == nd.Name {
-		want = true
+	if nn == normalise(nd.Name) {
+		want = true // the comparison is case insensitive on both sides
 	}
 	for _, a := range nd.Aliases {
 		if a == nn {
@@ -123,6 +124,7 @@ func c15EqEval(cs *core.Case) (bool, string, string) {
 
 // kind "c15res": a detection result must satisfy the reflexive laws.
 func c15ResEval(cs *core.Case) (bool, string, string) {
+	c15Register()
 	d := detect(cs.In, cs.Limit)
 	s := d.String()
 	if !d.Is(s) {
@@ -225,8 +227,9 @@ var c15Extensions = []struct {
 	parent, name, ext string
 	aliases           []string
 }{
-	{"", "x/c15-root", ".c15a", []string{"x/c15-root-alias1", "x/c15-root-alias2"}},
-	{"text/plain", "x/c15-text", ".c15b", []string{"x/c15-text-alias"}},
+	// registered the way IANA spells e.g. video/H264: with capitals in the name
+	{"", "x/C15-Root", ".c15a", []string{"x/c15-root-alias1", "x/c15-root-alias2"}},
+	{"text/plain", "X/c15-Text", ".c15b", []string{"x/c15-text-alias"}},
 	{"application/zip", "x/c15-zip", ".c15c", []string{"x/c15-zip-alias"}},
 }
 
@@ -238,6 +241,10 @@ func c15Register() {
 	}
 	c15Registered = true
 	never := func([]byte, uint32) bool { return false }
+	dets := map[string]func([]byte, uint32) bool{
+		".c15a": func(b []byte, _ uint32) bool { return bytes.HasPrefix(b, []byte("c15root")) },
+		".c15b": func(b []byte, _ uint32) bool { return bytes.HasPrefix(b, []byte("c15text")) },
+	}
 	// the alias arguments are adjacent sub-slices of ONE caller-owned array with
 	// spare capacity (a registry table): whatever writes past the end of one
 	// format's aliases lands in the next format's aliases
@@ -251,10 +258,14 @@ func c15Register() {
 	for _, e := range c15Extensions {
 		arg := c15AliasTable[at : at+len(e.aliases)] // cap reaches to the end of the table
 		at += len(e.aliases)
+		det := dets[e.ext]
+		if det == nil {
+			det = never
+		}
 		if e.parent == "" {
-			mimetype.Extend(never, e.name, e.ext, arg...)
+			mimetype.Extend(det, e.name, e.ext, arg...)
 		} else {
-			mimetype.Lookup(e.parent).Extend(never, e.name, e.ext, arg...)
+			mimetype.Lookup(e.parent).Extend(det, e.name, e.ext, arg...)
 		}
 	}
 }
@@ -399,6 +410,18 @@ func c15Run(c *core.Ctx) {
 	}
 	// (3)
 	res := &core.Case{Kind: "c15res"}
+	// results that land on (or below) the registered extensions
+	if c.Mine(3) {
+		for _, in := range []string{"c15root", "c15root and more", "c15text", "c15text \xe9", "  c15text"} {
+			res.In, res.Limit = []byte(in), 0
+			c.R.States++
+			c.R.Transitions++
+			c.R.Evals++
+			c.R.Nontrivial++
+			c.Check(res)
+		}
+		c.SampleCase("result-laws-on-extensions", res)
+	}
 	for _, w := range corpus(c) {
 		if !c.Next() || c.Expired() {
 			continue
